@@ -19,11 +19,11 @@ import (
 
 type tNC struct{ id string }
 
-func (n tNC) ID() dra.NodeClaimID                                    { return unique.Make(n.id) }
-func (n tNC) NodeName() string                                       { return "" }
-func (n tNC) NodePoolID() dra.NodePoolID                             { return unique.Make("pool") }
-func (n tNC) Requirements() scheduling.Requirements                  { return scheduling.NewRequirements() }
-func (n tNC) InstanceTypes() []dra.InstanceTypeID                    { return nil }
+func (n tNC) ID() dra.NodeClaimID                                        { return unique.Make(n.id) }
+func (n tNC) NodeName() string                                           { return "" }
+func (n tNC) NodePoolID() dra.NodePoolID                                 { return unique.Make("pool") }
+func (n tNC) Requirements() scheduling.Requirements                      { return scheduling.NewRequirements() }
+func (n tNC) InstanceTypes() []dra.InstanceTypeID                        { return nil }
 func (n tNC) ResourceSlices() map[dra.InstanceTypeID][]dra.ResourceSlice { return nil }
 
 type tcase struct {
@@ -37,7 +37,9 @@ func cpDev(name string) cloudprovider.DeviceID {
 	return cloudprovider.DeviceID{Driver: unique.Make("drv"), Pool: unique.Make("pool"), Device: unique.Make(name)}
 }
 
-func gDev(name string, tmpl bool) string { return fmt.Sprintf("(mkDev %s %s)", kit.GStr(name), kit.GBool(tmpl)) }
+func gDev(name string, tmpl bool) string {
+	return fmt.Sprintf("(mkDev %s %s)", kit.GStr(name), kit.GBool(tmpl))
+}
 
 func runT(c *kit.Ctx, r *kit.Rand, idx int) {
 	devs := []string{"d1", "d2", "d3", "d4"}
